@@ -113,6 +113,23 @@ def run_search(repo: Repo, res: Result) -> None:
                 n += 1
                 ok = ev.what == m.popped
                 res.add("C01.S", repo.key(fi, stmt_of(ev.call)) + " [mark]", ok, "popped node marked visited" if ok else f"`{ev.what}` marked visited instead of the popped node", where(fi, ev.call), kind="structural")
+        # every neighbour of an expanded node and every node of the worklist is examined: the searches collect all pairs / all sub
+        # modules (none is an existence query), so leaving the neighbour iteration or the node loop on a condition skips edges -
+        # and whether an edge is skipped then depends on which other edges exist (monotonicity)
+        exits = S.early_exits(m)
+        for lp, kind_ in [(i.node, "neighbour") for i in m.neighbour_iters if i.gen is None] + ([(m.loop, "outer")] if m.outer_kind in ("while", "for") else []):
+            mine = [x for x in exits if x.loop is lp]
+            if not mine:
+                n += 1
+                res.add("C01.S", repo.key(fi, lp) + f" [{'every neighbour' if kind_ == 'neighbour' else 'every worklist node'} examined]", True, "the loop is only left when it is exhausted (continue / guard clauses skip single elements)", where(fi, lp), kind="structural")
+            for x in mine:
+                n += 1
+                what = "break" if isinstance(x.stmt, ast.Break) else norm(x.stmt)
+                if kind_ == "neighbour":
+                    detail = f"`{what}` under `{x.guard_text}` leaves the iteration over `{norm(m.neighbour_call)}`: the remaining neighbours of `{m.popped}` are never classified, pushed or recorded (neighbours come sorted, so one import can hide later ones: adding an import removes reported pairs)"
+                else:
+                    detail = f"`{what}` under `{x.guard_text}` leaves the node loop while `{m.worklist}` may still hold nodes: their imports are never examined"
+                res.add("C01.S", repo.key(fi, x.anchor) + f" [early exit from the {'neighbour' if kind_ == 'neighbour' else 'node'} loop]", False, detail, where(fi, x.stmt), kind="dominance")
         # adjustments of the sub-tree sets: only the identifier of a 'sub modules of' filter is taken out / put in (a named module
         # stands for itself and all its descendants; 'sub modules of X' for X's strict descendants)
         for op in m.set_ops:
